@@ -322,6 +322,7 @@ enum { LOG_INVOKE = 1, LOG_RETURN, LOG_SWITCH, LOG_HANDLER, LOG_FAULT, LOG_ALLOC
 
 // ------------------------------------------------------------------ allocator seam
 std::vector<AllocRec> g_live;
+std::vector<void *> g_freed;
 struct SiteInfo {
     uintptr_t off; // return address relative to library base
     std::string name;
@@ -361,9 +362,14 @@ static inline bool should_fail(const Fault &f, uint32_t k) {
     if ((int)k == f.alloc_k || (int)k == f.alloc_k2) return true;
     return f.alloc_mode == 1 && (int)k >= f.alloc_k;
 }
-static void untrack(void *p) {
+static bool untrack(void *p) {
     for (size_t i = g_live.size(); i-- > 0;)
-        if (g_live[i].p == p) { g_live.erase(g_live.begin() + i); return; }
+        if (g_live[i].p == p) { g_live.erase(g_live.begin() + i); return true; }
+    return false;
+}
+static void forget_freed(void *p) {
+    for (size_t i = g_freed.size(); i-- > 0;)
+        if (g_freed[i] == p) { g_freed.erase(g_freed.begin() + i); return; }
 }
 // returns true if the request is to be failed
 static bool alloc_request(Task *t, uintptr_t ra, uint32_t *site_out) {
@@ -397,8 +403,15 @@ static void alloc_body(void *p_) {
     t->in_op = false;
     if (c->kind == 3) {
         if (c->old) {
-            untrack(c->old);
             sim_log(LOG_FREE, t->id, 0);
+            if (untrack(c->old)) g_freed.push_back(c->old);
+            else if (std::find(g_freed.begin(), g_freed.end(), c->old) != g_freed.end()) {
+                // the library releases a block it has already released: record it, do not corrupt the heap
+                t->res[t->cur_op].double_free++;
+                sim_log(LOG_FAULT, 9, 0);
+                t->in_op = save;
+                return;
+            }
         }
         free(c->old);
         t->in_op = save;
@@ -409,9 +422,11 @@ static void alloc_body(void *p_) {
     if (alloc_request(t, c->ra, &s)) errno = ENOMEM;
     else if (c->kind == 0) {
         c->result = malloc(c->a);
+        forget_freed(c->result);
         g_live.push_back({c->result, c->a, s, t->id, t->cur_op});
     } else if (c->kind == 1) {
         c->result = calloc(c->a, c->b);
+        forget_freed(c->result);
         g_live.push_back({c->result, c->a * c->b, s, t->id, t->cur_op});
     } else {
         // keep the attribution of the block to the op that first allocated it
@@ -420,6 +435,7 @@ static void alloc_body(void *p_) {
             if (a.p == c->old) { owner_task = a.task; owner_op = a.op; }
         if (c->old) untrack(c->old);
         c->result = realloc(c->old, c->a);
+        forget_freed(c->result);
         g_live.push_back({c->result, c->a, s, owner_task, owner_op});
     }
     t->in_op = save;
@@ -611,6 +627,7 @@ static void finish_digest(Task &t, OpResult &r) {
     h.u64(r.hcalls.size());
     for (auto &c : r.hcalls) { h.u64((uint64_t)c.hid); h.u64((uint64_t)(int64_t)c.code); h.u64(c.msgh); }
     h.str(r.out);
+    h.u64(r.double_free);
     r.digest = h.h;
 }
 
@@ -706,6 +723,7 @@ void run_pass(const Plan &plan, const PassCfg &cfg, Strategy &strat, PassResult 
     g_lib.restore_pristine();
     for (auto &a : g_live) free(a.p);
     g_live.clear();
+    g_freed.clear();
     setlocale(LC_ALL, plan.locale ? "C.UTF-8" : "C");
     g_sim.plan = &plan;
     g_sim.cfg = cfg;
